@@ -492,5 +492,48 @@ func genAcctMod() {
 	}
 	l.p("/-- `spendAccount`: witness type -> lock time (`best` = the best-height parameter, `zero`) -/")
 	l.p("def lockTimeSwitch : List (Nat × String) := [%s]", strings.Join(lrows, ", "))
+	// terms in force: the manager keeps no copy of the auctioneer's terms
+	// (no struct field whose type mentions AuctioneerTerms) and
+	// DepositAccount (or a same-package helper it calls) asks the
+	// auctioneer for them.
+	var termFields []string
+	for _, f := range acct {
+		ast.Inspect(f, func(x ast.Node) bool {
+			ts, ok := x.(*ast.TypeSpec)
+			if !ok || ts.Name.Name != "manager" {
+				return true
+			}
+			if st, ok := ts.Type.(*ast.StructType); ok {
+				for _, fld := range st.Fields.List {
+					if strings.Contains(exprString(fld.Type), "AuctioneerTerms") {
+						for _, id := range fld.Names {
+							termFields = append(termFields, id.Name)
+						}
+						if len(fld.Names) == 0 {
+							termFields = append(termFields, exprString(fld.Type))
+						}
+					}
+				}
+			}
+			return false
+		})
+	}
+	sort.Strings(termFields)
+	l.p("/-- fields of `manager` holding auctioneer terms (a cache would make a deposit be judged against stale terms) -/")
+	l.p("def managerTermsFields : List String := %s", leanStrList(termFields))
+	queries := false
+	if dep != nil {
+		fns := append([]*ast.FuncDecl{dep}, acctmodCallees(acct, dep)...)
+		for _, g := range fns {
+			ast.Inspect(g.Body, func(x ast.Node) bool {
+				if c, ok := x.(*ast.CallExpr); ok && strings.HasSuffix(exprString(c.Fun), ".Auctioneer.Terms") {
+					queries = true
+				}
+				return true
+			})
+		}
+	}
+	l.p("/-- `DepositAccount` (or a helper it calls) queries `Auctioneer.Terms` -/")
+	l.p("def depositQueriesTerms : Bool := %s", leanBool(queries))
 	l.p("end Pool.Gen.C07")
 }
